@@ -34,12 +34,19 @@ type Case struct {
 	Hist   *Hist         `json:"hist,omitempty"`   // search legs: a history on one codec instance (search.go); Pkts is unused then
 	Ld     []string      `json:"ld,omitempty"`     // payload SPECs of a WriteLenData/ReadLenData stream (lendata.go); Pkts is unused then
 	Crc    string        `json:"crc,omitempty"`    // a byte string for the direct CRC-32 comparison (lendata.go)
+	Stream *Stream       `json:"stream,omitempty"` // legs2.go: the packets travel as ONE stream on one codec instance, read through the named reader, every decoded packet HELD and looked at again later
+	Forged *Forged       `json:"forged,omitempty"` // legs2.go: the last four body bytes of Pkts[0] are solved for so that the frame's CRC-32 is the given value
 }
 
-// failCtx is put in front of every failure text (the search legs name the step and packet of a history there).
-var failCtx string
+// failCtx is put in front of every failure text (the search legs name the step and packet of a history there);
+// failKey in front of every failure key (legs2.go: "held:" when a packet is looked at again later).
+var failCtx, failKey string
+var nFails int // failures recorded so far
 
-func fail(r *hxlib.Run, key, what string, c interface{}) { r.Fail(key, failCtx+what, c) }
+func fail(r *hxlib.Run, key, what string, c interface{}) {
+	nFails++
+	r.Fail(failKey+key, failCtx+what, c)
+}
 
 // the protocol description (v1_header.go, v2_header.go comments), restated for the oracle
 func headerSize(v int) int {
@@ -82,19 +89,35 @@ func unzlib(b []byte) ([]byte, error) {
 
 type crypt struct {
 	enc, dec cipher.BlockCryptor
+	ora      cipher.BlockCryptor // the oracle's own instance for undoing the encryption of an emitted frame (nil: dec; stateful custom cryptors need a third one)
+	over     int                 // bytes Encrypt adds to a body (custom cryptors with a tag / nonce)
 }
 
+func (cr crypt) oracle() cipher.BlockCryptor {
+	if cr.ora != nil {
+		return cr.ora
+	}
+	return cr.dec
+}
+
+// curX: the custom cryptor instances (legs2.go, Cipher "x:…") of the case being run: made once per case,
+// because some of them are stateful.
+var curX *crypt
+
 func cryptOf(c *Case, d *hxcodec.Pkt) crypt {
+	if strings.HasPrefix(c.Cipher, "x:") {
+		return *curX
+	}
 	if c.Cipher != "" {
 		key := hxcodec.Gen(32, 77)
 		iv := hxcodec.Gen(32, 78)
-		return crypt{cipher.NewCrypt(c.Cipher, append([]byte{}, key...), append([]byte{}, iv...)),
-			cipher.NewCrypt(c.Cipher, append([]byte{}, key...), append([]byte{}, iv...))}
+		return crypt{enc: cipher.NewCrypt(c.Cipher, append([]byte{}, key...), append([]byte{}, iv...)),
+			dec: cipher.NewCrypt(c.Cipher, append([]byte{}, key...), append([]byte{}, iv...))}
 	}
 	if d.Key == "" {
-		return crypt{nil, nil}
+		return crypt{}
 	}
-	return crypt{hxcodec.Cryptor(d.Key), hxcodec.Cryptor(d.Key)}
+	return crypt{enc: hxcodec.Cryptor(d.Key), dec: hxcodec.Cryptor(d.Key)}
 }
 
 func class(d *hxcodec.Pkt) string { return fmt.Sprintf("v%d", d.V) }
@@ -139,6 +162,7 @@ func checkEncode(r *hxlib.Run, c *Case, d *hxcodec.Pkt, o *hxcodec.EncObs, cr cr
 	}
 	if wireLen > 0 && cr.enc != nil {
 		wantBits |= 2
+		wireLen += cr.over
 	}
 	nref := 0
 	if d.V == 2 {
@@ -211,8 +235,8 @@ func checkEncode(r *hxlib.Run, c *Case, d *hxcodec.Pkt, o *hxcodec.EncObs, cr cr
 		}
 	}
 	wire := append([]byte{}, written[hs+4*nref:]...)
-	if flag&2 != 0 && cr.dec != nil {
-		wire = cr.dec.Decrypt(wire)
+	if flag&2 != 0 && cr.oracle() != nil {
+		wire = cr.oracle().Decrypt(wire)
 	}
 	if flag&1 != 0 && d.Flag&1 == 0 {
 		if u, err := unzlib(wire); err != nil {
@@ -305,6 +329,7 @@ func frameSpec(d *hxcodec.Pkt, frame []byte) string {
 
 func runCase(r *hxlib.Run, c *Case) {
 	r.Case()
+	newX(c)
 	emit := c.Cipher == "" && c.UOff == 0 && !strings.HasPrefix(c.Ck, "e:") // what the model's line protocol can express
 	for i := range c.Pkts {
 		emit = emit && c.Pkts[i].Off == 0
@@ -651,7 +676,11 @@ func main() {
 	if r.Replay != "" {
 		var c Case
 		r.LoadReplay(&c)
-		if c.Hist != nil {
+		if c.Stream != nil {
+			runStream(r, &c)
+		} else if c.Forged != nil {
+			runForged(r, &c)
+		} else if c.Hist != nil {
 			runHist(r, &c)
 		} else if c.Ld != nil {
 			runLd(r, &c)
@@ -665,9 +694,11 @@ func main() {
 	}
 	if os.Getenv("HX_LEGS_ONLY") != "" { // development: the legs of search.go alone
 		legs(r)
+		legs2(r)
 		return
 	}
 	generate(r)
 	generateLd(r, r.R) // lendata.go: the length-prefixed pair and the direct CRC-32 comparison
+	legs2(r)           // legs2.go: second round (held outputs, forged checksums and cross-decoding, custom cryptors, shared scratch buffers, word-extreme thresholds)
 	legs(r)            // search.go (after the generators, so that the smallest failing case of a kind is recorded first): cheap legs in every tier, the 10-60 s ones from thorough on, the rest with -search only
 }
